@@ -375,3 +375,15 @@ func registerSprintf(n int) {
 	extraPreludes[name] = decl
 	extraPreludeOrder = append(extraPreludeOrder, name)
 }
+
+func init() {
+	// hclog.Default() never returns nil.
+	intrinsics["github.com/hashicorp/go-hclog.Default"] = func(e *Exec, st *State, fr *Frame, a []Value, in ssa.Instruction) Value {
+		v := e.materialize(e.fresh("hclogDefault", BoolSort).S, in.(ssa.Value).Type())
+		if vi, ok := v.(VIface); ok {
+			vi.Nil = False
+			return vi
+		}
+		return v
+	}
+}
